@@ -86,7 +86,7 @@ def morton_cells(tier, parts):
             for which in ("copy", "ctor"):
                 cells.append(Cell("morton.alloc.%s.N%d" % (which, n), un, "h_morton_alloc_%s" % which,
                                   defines={"DIMS_IN": n, "IN_SCALAR_T": "size_t", "VERIF_USE_BMI2": 1},
-                                  enforce="morton_alloc_size_%s" % which, replace=["round_pow2", "ipow"], unwind=5,
+                                  enforce="morton_alloc_size_%s" % which, replace=["round_pow2", "ipow", "morton_calculate_index"], unwind=66,
                                   extra_checks=["--unsigned-overflow-check"],
                                   closes_loops="max_element stub loop over N (complete)", replay="morton"))
     return cells
